@@ -14,7 +14,7 @@ ID = "C37"
 LEVEL = "exploration"
 TIERS = {
   "quick": {"runs": 96, "chunk": 6, "budget_s": 420, "timeout_s": 300},
-  "thorough": {"runs": 1600, "chunk": 10, "budget_s": 3000, "timeout_s": 300},
+  "thorough": {"runs": 384, "chunk": 8, "budget_s": 1500, "timeout_s": 300},
 }
 RULE = ("one evaluation = one law instance on one state: L1 step vs step1;step2 (Euler/implicitfast/implicit, sleep disabled), L2 forward "
         "leaves get_state(INTEGRATION) bit-unchanged, L3 forward;forward == forward in every output; states are probe points of seeded "
